@@ -328,7 +328,9 @@ class RefMachine:
                     raise RefError("array element assigned a non-scalar")
                 tgt.v[int(idx)] = val
             else:
-                self.env[name] = val
+                # value semantics: a plain copy "b <- a" of an array makes b independent of a
+                # (this is what the recorded dependencies and the Fortran target implement)
+                self.env[name] = Vec(val.v) if isinstance(val, Vec) else val
             return
         ident, lo, hi = loops[0]
         lo_v, hi_v = self.ev(lo), self.ev(hi)
@@ -349,8 +351,10 @@ class RefMachine:
         self.next_phase = phase["next"]
         events = []
         outcome = "completed"
+        self.exited = True
         try:
             self.exec_block(phase["body"], events)
+            self.exited = False
         except _Fail:
             outcome = "failed"
         except _Switch as s:
@@ -358,9 +362,10 @@ class RefMachine:
         except _Raise as r:
             outcome = ("raised", r.name)
         finally:
-            for n in list(self.env):
-                if not is_persistent(n):
-                    del self.env[n]
+            if not getattr(self, "keep_temporaries", False):
+                for n in list(self.env):
+                    if not is_persistent(n):
+                        del self.env[n]
         return events, outcome
 
     def persistent_state(self):
